@@ -486,6 +486,9 @@ pub fn run(report: &Report) {
     // at the impossible symbol exactly like the per-symbol loop and leave the coder as the loop does
     super::c01::batch_forms::<crate::models::U8U32>(report, if q { 3 } else { 4 });
     super::c01::batch_forms::<crate::models::U32U64>(report, 2);
+    super::pyfront::sweep(report, "misuse", 0,
+        "Python AnsCoder / RangeEncoder / ChainCoder, fresh and after 3 symbols: symbol and parameter arrays of every pair of different lengths 0..4, parameter arrays of different lengths, int64 / uint32 / float symbol arrays and scalar symbols holding values that do not fit (incl. values whose low 32 bits are a support symbol), a scalar symbol with parameter arrays: the call raises and the coder is unchanged",
+        &[], &[]);
     super::pyfront::sweep(report, "impossible", if q { 3 } else { 5 },
         "Python AnsCoder, RangeEncoder and ChainCoder x 4 models x every message up to the listed length x every insertion position x 4-8 impossible symbols (incl. values aliasing a support symbol modulo 2^24 and 2^32 boundaries): KeyError, coder unchanged, the history round-trips; array batches containing an impossible symbol leave exactly the symbols coded before it",
         &[], &[]);
